@@ -1,8 +1,10 @@
 // verifextract: regenerates, from /repo's current sources,
-//   (1) lean/Originium/Generated/Consts.lean — the constants and literal layout facts the Lean model depends on;
-//   (2) the synchronisation / file-operation skeleton of every function (ordered lock, channel, atomic,
-//       goroutine, file-system and package-local call events), compared by `check` with golden/skeleton.txt,
-//       the skeleton the concurrent and crash models were written against.
+//
+//	(1) lean/Originium/Generated/Consts.lean — the constants and literal layout facts the Lean model depends on;
+//	(2) the synchronisation / file-operation skeleton of every function (ordered lock, channel, atomic,
+//	    goroutine, file-system and package-local call events), compared by `check` with golden/skeleton.txt,
+//	    the skeleton the concurrent and crash models were written against.
+//
 // It is deliberately tiny: go/parser + go/ast, no type checking.
 package main
 
